@@ -1,6 +1,6 @@
 CONSTANTS MaxLen = 3
   Side = "server"
-  Cfgs = {"noall", "onlyall"}
+  Cfgs = {"noall", "onlyall", "idx", "noaddr"}
 INIT Init
 NEXT Next
 INVARIANTS FiredOnlyAfterHandshake NoOverride ExactlyItsHandler Emit
